@@ -136,18 +136,10 @@ pub fn eval_cgrfile(c: &CgrFileCase, model: &Model, work: &str, uid: &str) -> Op
 
 fn shrink_c(c: &CgrFileCase) -> Vec<CgrFileCase> {
     let mut out = Vec::new();
-    for i in 0..c.recs.len() {
+    for r in shrink_records(&c.recs) {
         let mut d = c.clone();
-        d.recs.remove(i);
+        d.recs = r;
         out.push(d);
-    }
-    for i in 0..c.recs.len() {
-        if c.recs[i].len() > 1 {
-            let mut d = c.clone();
-            let h = d.recs[i].len() / 2;
-            d.recs[i].truncate(h);
-            out.push(d);
-        }
     }
     if c.threads > 1 {
         let mut d = c.clone();
